@@ -279,8 +279,25 @@ func TestC08(t *testing.T) {
 					"github['sha']",
 					"always() || success() || failure() || cancelled()",
 				}
+				// the same kinds of expression in script positions, where the untrusted-input analysis runs
+				scriptExprs := []string{
+					"startsWith(github.event.issue.title, 'x')", "endsWith(github.head_ref, 'y')", "contains(github.event.pull_request.body, 'z')",
+					"github.event.issue.title", "github.event.pull_request.head.ref", "format('{0}', github.event.comment.body)",
+					"contains(fromJSON('[\"a\"]'), github.event.review.body) && startsWith(github.event.discussion.title, 'q')",
+					"github.event.commits.*.message", "github['event']['head_commit']['message']", "toJSON(github.event.pages.*.page_name)",
+				}
 				n := g.i("nextra", 1, 4)
 				for i := 0; i < n; i++ {
+					if g.b("script") {
+						if g.b("ghscript") {
+							y.ln("      - uses: actions/github-script@v7")
+							y.ln("        with:")
+							y.ln("          script: console.log(${{ %s }})", rapid.SampledFrom(scriptExprs).Draw(g.t, "sexpr"))
+						} else {
+							y.ln("      - run: echo ${{ %s }}", rapid.SampledFrom(append(append([]string{}, scriptExprs...), exprs...)).Draw(g.t, "sexpr"))
+						}
+						continue
+					}
 					y.ln("      - run: echo")
 					y.ln("        env:")
 					y.ln("          V: ${{ %s }}", rapid.SampledFrom(exprs).Draw(g.t, "xexpr"))
